@@ -16,6 +16,13 @@
 //! its canonical text — or by its *diagnosed class* when the mismatch is proven to be an
 //! instance of a known mechanism (see `diagnose`).
 //!
+//! A second spec language (hand.rs) covers constraint DAGs that the operator API cannot
+//! produce: `SymbolicExpression::{Add,Sub,Mul,Neg}` nodes constructed directly with
+//! `Arc::clone`d operands (one operand shared with an earlier constraint / an earlier part of
+//! the same constraint, the other one new, in either slot), enumerated exhaustively over all
+//! tree shapes x operator words x reference targets within the stated bounds. Its native side
+//! is the API-built AIR of the DAG's tree unfolding.
+//!
 //! Files: spec.rs (trees, enumeration by index, lowering to a shared-object program),
 //! air.rs (`ExprAir`: generic `Air<AB>` replaying a program through the AirBuilder API),
 //! engine_body.rs (native + circuit evaluation, instantiated per field in engine.rs),
@@ -26,6 +33,7 @@ mod common;
 mod engine;
 mod families;
 mod fixed;
+mod hand;
 mod spec;
 
 use std::collections::HashSet;
@@ -38,6 +46,7 @@ use vpcore::{Ctx, Histo, Report, finish};
 
 use engine::{ASSIGNMENTS, EvalError, FieldCfg, Outcome, eval_spec};
 use families::Family;
+use hand::AnySpec;
 use spec::*;
 
 fn fnv(s: &str) -> u64 {
@@ -149,14 +158,31 @@ fn diagnose(f: FieldCfg, spec: &Spec, got: &[Option<Vec<u64>>], seed: u64) -> Op
     (got.len() == want.len() && got.iter().zip(&want).all(|(g, w)| g.as_ref() == Some(w))).then_some(CLASS_EMISSION_ORDER)
 }
 
-fn judge(f: FieldCfg, spec: &Spec, seed: u64, want_sample: bool) -> Judged {
-    let (mut j, got) = judge_outcome(eval_spec(f, spec, seed), &|| spec.canon(), want_sample);
-    if let Some(b) = &mut j.bad
-        && b.clause == "value"
-    {
-        b.class = diagnose(f, spec, &got, seed);
+fn judge(f: FieldCfg, spec: &AnySpec, seed: u64, want_sample: bool) -> Judged {
+    match spec {
+        AnySpec::Api(spec) => {
+            let (mut j, got) = judge_outcome(eval_spec(f, spec, seed), &|| spec.canon(), want_sample);
+            if let Some(b) = &mut j.bad
+                && b.clause == "value"
+            {
+                b.class = diagnose(f, spec, &got, seed);
+            }
+            j
+        }
+        // hand-built DAGs emit no filters / lookups and keep emission order = fold order on the
+        // native side too (the twin has the same constraint kinds in the same order), so a
+        // mismatch caused by the emission-order class shows up under its own key there as well
+        AnySpec::Hand(h) => {
+            let (mut j, got) = judge_outcome(engine::eval_hand(f, h, seed), &|| h.canon(), want_sample);
+            if let Some(b) = &mut j.bad
+                && b.clause == "value"
+                && let Ok(twin) = h.unfold()
+            {
+                b.class = diagnose(f, &twin, &got, seed);
+            }
+            j
+        }
     }
-    j
 }
 
 // ---------------------------------------------------------------------------------------
@@ -219,6 +245,13 @@ fn et_variants(t: &ET) -> Vec<ET> {
     }
     inner(t, &mut out, &|x| x);
     out
+}
+
+fn shrink_any(s: &AnySpec) -> Vec<AnySpec> {
+    match s {
+        AnySpec::Api(s) => shrink_candidates(s).into_iter().map(AnySpec::Api).collect(),
+        AnySpec::Hand(h) => hand::shrink_hand(h).into_iter().map(AnySpec::Hand).collect(),
+    }
 }
 
 fn shrink_candidates(s: &Spec) -> Vec<Spec> {
@@ -348,12 +381,12 @@ fn shrink_candidates(s: &Spec) -> Vec<Spec> {
 }
 
 /// Greedy shrink that keeps the clause AND the diagnosed class of the violation.
-fn minimise(f: FieldCfg, spec: &Spec, seed: u64) -> (Spec, Bad) {
+fn minimise(f: FieldCfg, spec: &AnySpec, seed: u64) -> (AnySpec, Bad) {
     let mut cur = spec.clone();
     let mut cur_bad = judge(f, &cur, seed, false).bad.expect("minimise called on a passing spec");
     let (clause, class) = (cur_bad.clause, cur_bad.class);
     'outer: loop {
-        for cand in shrink_candidates(&cur) {
+        for cand in shrink_any(&cur) {
             if let Some(b) = judge(f, &cand, seed, false).bad
                 && b.clause == clause
                 && b.class == class
@@ -391,7 +424,15 @@ const STOP_AFTER: u64 = 5000;
 /// Cap of the hash sets used to *measure* distinctness (memory), reported if hit.
 const SET_CAP: usize = 4_000_000;
 
-fn record_violation(report: &Report, f: FieldCfg, spec: &Spec, bad: &Bad, seed: u64, minimised: &AtomicU64) {
+fn replay_json(f: FieldCfg, min: &AnySpec, original: &AnySpec, seed: u64) -> Value {
+    match (min, original) {
+        (AnySpec::Hand(m), AnySpec::Hand(o)) => json!({"hand": m, "original_hand": o, "seed": seed, "field": f}),
+        (AnySpec::Api(m), AnySpec::Api(o)) => json!({"spec": m, "original_spec": o, "seed": seed, "field": f}),
+        _ => unreachable!("shrinking never changes the spec language"),
+    }
+}
+
+fn record_violation(report: &Report, f: FieldCfg, spec: &AnySpec, bad: &Bad, seed: u64, minimised: &AtomicU64) {
     if let Some(c) = bad.class {
         // the key of a diagnosed class does not depend on the minimal form: minimise only the
         // first instance (for the replay file), count the others
@@ -407,13 +448,13 @@ fn record_violation(report: &Report, f: FieldCfg, spec: &Spec, bad: &Bad, seed: 
     report.violation(
         violation_key(f, &min, &mbad),
         format!("[{}] folded constraint value differs for AIR {} — {}", f.tag(), min.canon(), mbad.detail),
-        json!({"spec": min, "original_spec": spec, "seed": seed, "field": f}),
+        replay_json(f, &min, spec, seed),
     );
 }
 
 /// Canonical key: the diagnosed class if there is one (all its minimal forms are the same
 /// defect), otherwise clause + canonical text of the minimised AIR.
-fn violation_key(f: FieldCfg, min: &Spec, bad: &Bad) -> String {
+fn violation_key(f: FieldCfg, min: &AnySpec, bad: &Bad) -> String {
     // the primary field keeps the plain key; other fields are tagged
     let tag = if f == FieldCfg::BabyBear4 { String::new() } else { format!("@{}", f.tag()) };
     match bad.class {
@@ -445,8 +486,20 @@ fn main() {
             }
             sample = j.sample;
         } else {
-            let spec: Spec = vpcore::serde_json::from_value(v["spec"].clone())
-                .unwrap_or_else(|e| vpcore::machinery_error(&format!("replay has no spec: {e}")));
+            let spec: AnySpec = if v.get("hand").is_some() {
+                AnySpec::Hand(
+                    vpcore::serde_json::from_value(v["hand"].clone())
+                        .unwrap_or_else(|e| vpcore::machinery_error(&format!("replay has no hand spec: {e}"))),
+                )
+            } else {
+                AnySpec::Api(
+                    vpcore::serde_json::from_value(v["spec"].clone())
+                        .unwrap_or_else(|e| vpcore::machinery_error(&format!("replay has no spec: {e}"))),
+                )
+            };
+            if !spec.valid() {
+                vpcore::machinery_error("replay holds an ill-formed spec");
+            }
             let f: FieldCfg = vpcore::serde_json::from_value(v["field"].clone()).unwrap_or(FieldCfg::BabyBear4);
             println!("replaying [{}] {}", f.tag(), spec.canon());
             let j = judge(f, &spec, rseed, true);
@@ -456,7 +509,7 @@ fn main() {
                 report.violation(
                     violation_key(f, &min, &mbad),
                     format!("[{}] folded constraint value differs for AIR {} — {}", f.tag(), min.canon(), mbad.detail),
-                    json!({"spec": min, "original_spec": spec, "seed": rseed, "field": f}),
+                    replay_json(f, &min, &spec, rseed),
                 );
             }
             sample = j.sample;
@@ -537,7 +590,7 @@ fn main() {
                 let want_sample = idx == fam.count / 2;
                 let j = judge(fam.field, &spec, seed, want_sample);
                 n_eval += 1;
-                n_share += spec.share as u64;
+                n_share += spec.shares() as u64;
                 n_ext += spec.is_ext_mode() as u64;
                 if j.nontrivial {
                     n_nontriv += 1;
@@ -640,7 +693,7 @@ fn main() {
         "Primary field: BabyBear with its degree-4 binomial extension (p3_test_utils::baby_bear_params). Goldilocks/degree-2 and KoalaBear/quintic-trinomial are explored on a subset of the families only (see families[].field).".to_string(),
         "Generated AIRs have the fixed shape 2 main / 2 preprocessed / 2 public / 2 periodic columns; permutation width, challenges and cumulated values follow the number of lookup contexts exactly as p3-batch-stark lays them out. The fixed repo AIRs use their own shapes.".to_string(),
         "Opened values, selectors, periodic values and alpha are free inputs of both folders (the property quantifies over arbitrary values), not values of an actual trace.".to_string(),
-        "Sharing is produced the way AIR code produces it: one expression object re-used through .clone(); hand-built Arc aliasing that the AirBuilder API cannot produce is out of scope.".to_string(),
+        "Sharing is produced (a) the way AIR code produces it — one expression object re-used through .clone() — in the API-built families, and (b) by constructing p3's public SymbolicExpression / SymbolicExpressionExt enum nodes directly with Arc::clone'd operands in the hand_dag_* families (every operand slot new or any earlier node, within the stated operator / reference bounds; no filters, lookups or permutation leaves there; fresh leaves take one kind per position).".to_string(),
         "Oracle = p3 0.6.3 native folders (uni-stark VerifierConstraintFolder for base-only AIRs, cross-checked against p3-lookup's VerifierConstraintFolderWithLookups + LogUpGadget::eval_air_and_lookups, which is the only oracle for extension constraints and lookups).".to_string(),
     ];
     finish(&ctx, cov, assumptions, &report);
